@@ -83,7 +83,27 @@ FOCUS_W5 = {
  'C17': "the type-pair dispatch in src/change_components_type.rs (which conversion is chosen for which pair of pixel types) and multi-component pixels",
  'C18': "the SIMD 16-bit horizontal and vertical kernels: treatment of u16 values >= 32768 and of coefficients before the multiply",
 }
-FOCUS = FOCUS_W5 if tag.startswith('w5') else FOCUS_W4 if tag.startswith('w4') else (FOCUS_W3 if tag.startswith('w3') else FOCUS_W2)
+FOCUS_W6 = {
+ 'C01': "the non-adaptive Interpolation algorithm when down-scaling, and SuperSampling combined with alpha handling or with a fractional crop box",
+ 'C02': "the SSE4.1 / AVX2 multiply_alpha kernels of the 16-bit and float pixel types (src/alpha/u16x2, u16x4, f32x2, f32x4) and the horizontal 16-bit convolution kernels (src/convolution/u16x1 .. u16x4)",
+ 'C03': "MulDiv, PixelComponentMapper and change_type_of_pixel_components on zero-sized / one-pixel images and views, and u32 / usize arithmetic in src/images/*.rs (cropped views of cropped views, offsets near u32::MAX)",
+ 'C04': "the dynamic CroppedImage / CroppedImageMut constructors and TypedCroppedImageMut::new / from_ref",
+ 'C05': "vertical-only and horizontal-only resizes of 16-bit and float pixel types into mutable cropped destination views, with the SIMD back-ends",
+ 'C06': "the F32x2 / F32x4 SIMD multiply and divide kernels (row tails, special values) and the portable 16-bit kernels",
+ 'C07': "alpha handling combined with SuperSampling or Interpolation, and the U8x2 pixel type",
+ 'C08': "alpha operations and resizes whose source or destination is a cropped view, under rayon, with thread counts larger than the number of rows",
+ 'C09': "reset_internal_buffers, size_of_internal_buffers, the super_sampling_buffer, and a Resizer that is moved between pixel types of different alignment several times",
+ 'C10': "the I32 and F32 convolution kernels (portable and SIMD): accumulation order, final rounding / conversion",
+ 'C11': "down-scaling by large non-integer factors through the dynamic entry point and through cropped source views",
+ 'C12': "the case that only one dimension matches, for 16-bit and float pixel types on the SIMD back-ends, and same-size copies of U16x3 / F32x3 images",
+ 'C13': "IntoImageView / IntoImageViewMut implementations, TypedImage::from_pixels / from_pixels_slice, Image::from_vec_u8 / into_vec / copy",
+ 'C14': "split_by_height / split_by_height_mut of cropped views and of parts of earlier splits (offset composition)",
+ 'C15': "fit_into_destination(None), zero-sized sources or destinations, and destinations whose aspect ratio equals the source's up to rounding",
+ 'C16': "the gamma 2.2 mapper, 16-bit to 8-bit tables, and the in-place variants for 2- and 4-component types",
+ 'C17': "u16 <-> f32 and u8 <-> f32 conversions and the typed entry point change_type_of_pixel_components_typed for multi-component pixels",
+ 'C18': "the I32 and F32 kernels with non-negative filters, and the Hamming / Gaussian kernel functions",
+}
+FOCUS = FOCUS_W6 if tag.startswith('w6') else FOCUS_W5 if tag.startswith('w5') else FOCUS_W4 if tag.startswith('w4') else (FOCUS_W3 if tag.startswith('w3') else FOCUS_W2)
 os.makedirs('/tmp/wt', exist_ok=True)
 tmpl = open(os.path.join(os.path.dirname(os.path.abspath(__file__)), 'prompt_template.txt')).read()
 for line in open('/verif/properties.jsonl'):
